@@ -126,6 +126,10 @@ type c18Mismatch struct {
 }
 
 // c18Stress runs nG goroutines × ops calls; returns evaluations and mismatches.
+// c18ParamsChanged: codec types whose shared parameters object differs after a stress run (deep hash)
+var c18ParamsChanged = map[string]bool{}
+var c18ParamsSeen = map[string]bool{}
+
 func c18Stress(jobs []*c18Job, gmp, nG, ops int, mode string, seed uint64) (int, []c18Mismatch) {
 	old := runtime.GOMAXPROCS(gmp)
 	defer runtime.GOMAXPROCS(old)
@@ -139,6 +143,19 @@ func c18Stress(jobs []*c18Job, gmp, nG, ops int, mode string, seed uint64) (int,
 			shared[j] = sharedByType[j.cd]
 		}
 	}
+	sharedHash := map[dcodec.Codec][32]byte{}
+	for cd, p := range sharedByType {
+		sharedHash[cd] = c10DeepHash(reflect.ValueOf(p))
+	}
+	defer func() {
+		for cd, p := range sharedByType {
+			k := c18TypeKey(cd)
+			c18ParamsSeen[k] = true
+			if c10DeepHash(reflect.ValueOf(p)) != sharedHash[cd] {
+				c18ParamsChanged[k] = true
+			}
+		}
+	}()
 	var mu sync.Mutex
 	var mism []c18Mismatch
 	evals := 0
@@ -291,6 +308,15 @@ func c18Main(c *hx.Ctx) {
 		}
 		c.Case(fmt.Sprintf("fact-codec-changed %s %d", k, ch), "ok")
 	}
+	for _, k := range types {
+		if c18ParamsSeen[k] {
+			ch := 0
+			if c18ParamsChanged[k] {
+				ch = 1
+			}
+			c.Case(fmt.Sprintf("fact-codec-params-changed %s %d", k, ch), "ok")
+		}
+	}
 	if pv != nil {
 		var pkgs []string
 		for p := range pv {
@@ -321,18 +347,23 @@ func c18Main(c *hx.Ctx) {
 	if c.Thorough() {
 		wait = 900 * time.Second
 	}
+	raceStatus := ""
 	select {
 	case err := <-raceDone:
 		if err != nil {
 			c.Count("race-substep-unavailable")
-			c.Notes = append(c.Notes, "race detector build failed: "+err.Error())
+			raceStatus = "UNAVAILABLE: race detector build failed: " + err.Error()
 			break
 		}
 		c18RunRace(c, raceBin)
+		raceStatus = fmt.Sprintf("ran: %d race reports", c.Distribution["race-reports"])
 	case <-time.After(wait):
 		c.Count("race-substep-unavailable")
-		c.Notes = append(c.Notes, fmt.Sprintf("race detector build not finished after %s (cold build cache); sub-step not run", wait))
+		raceStatus = fmt.Sprintf("UNAVAILABLE: race detector build not finished after %s (cold build cache; run `bin/check setup` first); sub-step not run", wait)
 	}
+	c.Notes = append(c.Notes, "race sub-step "+raceStatus)
+	// samples go into the evidence file: the status of the race sub-step is the first one
+	c.Samples = append([]any{map[string]any{"race_substep": raceStatus}}, c.Samples...)
 	c.Sample(map[string]any{"jobs": len(jobs), "goroutines": nG, "gomaxprocs": gmps})
 }
 
@@ -501,6 +532,14 @@ func c18ValidateFacts(c *hx.Ctx, codecs map[string]dcodec.Codec) {
 			kv, before := c18FieldsOf(sv)
 			hx.Guard(func() { m.Call(nil) })
 			_, after := c18FieldsOf(sv)
+			if strings.Contains(lt, "htj2k") {
+				// pseudo-fields of the generated kernel: nearestPowerOf2(p.F); Validate leaves exactly that value in F
+				for _, f := range []string{"BlockWidth", "BlockHeight"} {
+					if v, ok := after[f]; ok {
+						kv = append(kv, fmt.Sprintf("nearestPowerOf2_%s=%s", f, v))
+					}
+				}
+			}
 			var changed []string
 			for n, b := range before {
 				if after[n] != b {
